@@ -100,6 +100,8 @@ def base_blocks(ctx: Ctx):
                 sr = _norm_block_nf(_swap_block_nf(tr))
                 sc = _norm_block_nf(tc)
                 ctx.ob("base-block-mirror", where, sr, sc, sr == sc, "row-direction base block is the mirror image of the column-direction one")
+            elif "clash" in (kr, kc):
+                ctx.violated("base-block-mirror", where, f"{kr}:{tr[:120]} / {kc}:{tc[:120]}", "mirrored normal forms", "operands with different axis roles are combined on one side")
             else:
                 ctx.undecided("base-block-mirror", where, f"{kr}:{tr[:60]} / {kc}:{tc[:60]}", "mirrored normal forms")
             ctx.count("base block mirror obligations")
